@@ -568,7 +568,7 @@ Fixpoint closure (fuel : nat) (work : list cfg) (seen : list (list nat)) (acc : 
     end
   end.
 
-Definition CLOSE_FUEL := 4000.
+Definition CLOSE_FUEL := 400 * 400.   (* work items per closure; far above what 4 threads produce *)
 Definition close (l : list cfg) : list cfg := closure CLOSE_FUEL l [] [].
 
 (* visible events *)
@@ -679,10 +679,40 @@ Definition run_kind2 (l : list N) : list N :=
   | [] => BAD_CASE
   end.
 
+(* ---------------------------------------------------------------------- *)
+(* kind 4: the forced schedules of the window between the receiver's drain and
+   its disconnection (the real code is driven through the same schedule by the
+   scheduling points of compio_actor::verif) *)
+Definition k4_msg : msg := mk_msg 1 true BOk.
+Definition k4_trace (which : N) : list ev :=
+  match which with
+  | 1%N =>   (* a call passes its closed-check, stop() is taken, the queue is drained, the call pushes *)
+    [EPreStart true; EStartAck true; EPostStart true; ESelStop false;
+     ESendPass k4_msg; EStopSwap; EStopPush true; ESelMsg None; ESelStop true;
+     EBeginStop; EPreStop true; EDrain; ESendPush k4_msg SOk; EDropRx; EPostStop true]
+  | _ =>     (* Cluster::join drops the task; a call arrives after the drain *)
+    [EPreStart true; EStartAck true; EPostStart true; ESelStop false;
+     ECancel; EDrain; ESendPass k4_msg; ESendPush k4_msg SOk; EDropRx]
+  end.
+Definition run_kind4 (l : list N) : list N :=
+  match l with
+  | [which] =>
+    match steps (init 2) (k4_trace which) with
+    | Some s =>
+      [1%N;
+       if existsb (msg_eqb k4_msg) (released s)
+       then (if existsb (msg_eqb k4_msg) (finished s) then 1%N else 4%N) else 9%N;
+       if is_gone s then 1%N else 0%N]
+    | None => STUCK
+    end
+  | _ => BAD_CASE
+  end.
+
 Definition run_c19 (l : list N) : list N :=
   match l with
   | 1%N :: r => run_kind1 r
   | 2%N :: r => run_kind2 r
   | 3%N :: _ => [3%N]        (* concurrent process-group programs are judged by the oracle only *)
+  | 4%N :: r => run_kind4 r
   | _ => BAD_CASE
   end.
